@@ -1789,7 +1789,11 @@ fn fmt_validation_error_with_snippets_offset(
                 params: &[],
             })
             .unwrap_or(Cow::Borrowed(entry_raw.as_str()));
-        let base_msg = l10n.validation_base_message(entry.as_ref(), &resolved_path);
+        // The path and the entry reflect key / value text of the input.
+        let base_msg = terminal_safe_message(Cow::Owned(
+            l10n.validation_base_message(entry.as_ref(), &resolved_path),
+        ))
+        .into_owned();
 
         match (ref_loc, def_loc) {
             (Location::UNKNOWN, Location::UNKNOWN) => {
@@ -1886,7 +1890,11 @@ fn fmt_validator_error_with_snippets_offset(
 
         let resolved_path = format_path_with_resolved_leaf(&issue.path, &resolved_leaf);
         let entry = issue.display_entry_overridden(l10n, ExternalMessageSource::Validator);
-        let base_msg = l10n.validation_base_message(&entry, &resolved_path);
+        // The path and the entry reflect key / value text of the input.
+        let base_msg = terminal_safe_message(Cow::Owned(
+            l10n.validation_base_message(&entry, &resolved_path),
+        ))
+        .into_owned();
 
         match (locs.reference_location, locs.defined_location) {
             (Location::UNKNOWN, Location::UNKNOWN) => {
